@@ -213,8 +213,9 @@ impl Graph for DG {
                             return out;
                         }
                         Ok(Err(_)) => {
+                            // an object that has reported an error is still a reachable state: callers may call again
                             self.errors.fetch_add(1, Ordering::Relaxed);
-                            return out; // an error ends the connection
+                            break;
                         }
                         Ok(Ok(None)) => break,
                         Ok(Ok(Some(_))) => {
@@ -280,7 +281,8 @@ fn decode_body(type_id: u8, body: &[u8], ix: u64) -> Result<(), (String, String)
 // ---- (c) sessions ---------------------------------------------------------------------------------
 
 fn value_menu() -> Vec<V> {
-    vec![num(1.0), V::Bool(true), s("x"), obj(vec![("app", s("a")), ("code", s("NetStream.Play.Start"))]), V::Arr(vec![num(1.0)]), V::Null, V::Undef]
+    vec![num(1.0), V::Bool(true), s("x"), obj(vec![("app", s("a")), ("code", s("NetStream.Play.Start"))]), V::Arr(vec![num(1.0)]), V::Null, V::Undef,
+        num(f64::NAN), num(-1.0), num(-0.0), num(f64::INFINITY), num(1e300), num(-2.0)]
 }
 
 /// Raw (msid, type id, body) messages no well-behaved peer sends.
@@ -443,7 +445,8 @@ impl Graph for SG {
                         }
                         if o.err.is_some() {
                             self.errs.fetch_add(1, Ordering::Relaxed);
-                        } else {
+                        }
+                        {
                             // latent damage: the malformed message was accepted, so the session must
                             // keep working - an empty call and a ping must return
                             let ping = c.h.peer_bytes(&SAct::Ping { ts: 7 }).unwrap();
@@ -536,7 +539,8 @@ impl Graph for CG {
                         }
                         if o.err.is_some() {
                             self.errs.fetch_add(1, Ordering::Relaxed);
-                        } else {
+                        }
+                        {
                             let ping = c.h.peer_bytes(&CAct::Ping { ts: 7 }).unwrap();
                             let hh = &mut c.h;
                             out.impl_steps += 2;
